@@ -289,6 +289,59 @@ def run_script(sc, sudachipy, dic=None, point=None, pretoks=None):
                 objs = handed_out[op["list"]]
                 touch_everything(objs)
                 stats["stale_touches"] += len(objs)
+            elif kind == "posmatch":
+                def mk(spec):
+                    if spec["kind"] == "fn":
+                        i_, v_ = spec["index"], spec["value"]
+                        return dic.pos_matcher(lambda pos: pos[i_] == v_)
+                    return dic.pos_matcher([tuple(t) for t in spec["tuples"]])
+                exp = op["expect"]
+                try:
+                    pm = mk(op["a"])
+                    if op["comb"] == "not":
+                        pm = ~pm
+                    elif op["comb"] is not None:
+                        other = mk(op["b"])
+                        pm = (pm | other) if op["comb"] == "or" else (pm & other) if op["comb"] == "and" else (pm - other)
+                except Exception as ex:  # noqa
+                    if "error" in exp:
+                        continue
+                    raise Mismatch("unexpected-exception", "pos_matcher:" + type(ex).__name__, {"message": str(ex)[:300]})
+                if "error" in exp:
+                    raise Mismatch("expected-error", "pos_matcher", {"a": op["a"], "b": op["b"]})
+                got = sorted(list(x) for x in pm)
+                stats["values"] += 1 + len(got)
+                if len(pm) != exp["n"] or got != exp["pos"]:
+                    raise Mismatch("result-differs-from-core", "pos_matcher.entries", {"python_len": len(pm), "core_len": exp["n"], "python": got[:6], "core": exp["pos"][:6]})
+                str(pm)
+                if "matches" in exp:
+                    src = slots[op["list"]]
+                    if src is not None and src[1] == op["of_fill"] and id(src[0]) not in stale:
+                        gm = [pm(m) for m in src[0]]
+                        stats["values"] += len(gm)
+                        if gm != exp["matches"]:
+                            raise Mismatch("result-differs-from-core", "pos_matcher.call", {"python": gm[:20], "core": exp["matches"][:20]})
+            elif kind == "word_info":
+                src = slots[op["list"]]
+                if src is None or src[1] != op["of_fill"] or op["idx"] >= len(src[0]) or id(src[0]) in stale:
+                    stats["skipped"] += 1
+                    continue
+                import warnings
+                with warnings.catch_warnings():
+                    warnings.simplefilter("ignore")
+                    wi = src[0][op["idx"]].get_word_info()
+                for k_, v_ in op["expect"].items():
+                    g_ = getattr(wi, k_)
+                    stats["values"] += 1
+                    if g_ != v_:
+                        raise Mismatch("result-differs-from-core", "word_info." + k_, {"python": repr(g_)[:200], "core": repr(v_)[:200]})
+                if wi.length() != op["expect"]["head_word_length"]:
+                    raise Mismatch("result-differs-from-core", "word_info.length", {})
+            elif kind == "pos_of":
+                g_ = dic.pos_of(op["id"])
+                stats["values"] += 1
+                if (None if g_ is None else list(g_)) != op["expect"]:
+                    raise Mismatch("result-differs-from-core", "pos_of", {"id": op["id"], "python": repr(g_)[:200], "core": op["expect"]})
             elif kind == "misuse":
                 tok, tspec = toks[op["t"]]
                 try:
